@@ -27,7 +27,7 @@ THEOREMS = ["Tx3.Json.C16_hex_roundtrip", "Tx3.Json.C16_hexToBytes_plain", "Tx3.
             "Tx3.Json.C16_bool", "Tx3.Json.C16_fromJson_total", "Tx3.Json.C16_request_args",
             "Tx3.Json.parseNatChars_natDigits", "Tx3.Json.C16_int_decimal", "Tx3.Json.ofBE16_toBE16", "Tx3.Json.C16_int_hex16", "Tx3.Json.C16_utxo_ref_roundtrip",
             "Tx3.Json.go_exact", "Tx3.Json.C16_request_args_exact", "Tx3.Json.C16_argument_overrides_env",
-    "Tx3.Json.C16_bool_only", "Tx3.Json.C16_number_not_bool"]
+    "Tx3.Json.C16_bool_only", "Tx3.Json.C16_number_not_bool", "Tx3.Json.C16_utxo_ref_index_fits"]
 RULE = (
     "cases = (a) every admissible encoding of a drawn value per type: integers (boundary i128 / u64 / i64 values) as "
     "JSON number, decimal string, 0x-hex of 16 bytes; booleans as literal, 0/1, strings; byte strings as hex, 0x-hex, "
